@@ -27,7 +27,7 @@ Definition exn_name (e : exn) : bytes :=
 Inductive ckey := KStr (s : bytes) | KBytes (b : bytes).
 Inductive atom :=
 | ABytes (b : bytes) | AStr (b : bytes) | AInt (z : Z) | AFloat (b : bytes) | ABool (b : bool) | AOther
-| AByteArr (b : bytes).   (* a bytearray supplied by the embedder: Stack.put rejects it (TypeError) *)
+| AByteArr (b : bytes).   (* a bytearray supplied by the embedder: Stack.put rejects it (TypeError); as a sigfield it is read like bytes *)
 Inductive cval := VOne (a : atom) | VMany (l : list atom).
 
 Definition ckey_eqb (a b : ckey) : bool :=
